@@ -47,8 +47,11 @@ def main():
             if rc != 0:
                 print(f"{prop}-{k}: patch does not apply: {out[-300:]}")
                 continue
+            prev_meta = VERIF / "seeded" / f"{prop}-{k}" / "meta.json"
             if args.skip_suite:
                 suite = "skipped"
+                if prev_meta.exists():
+                    suite = json.loads(prev_meta.read_text()).get("suite_with_change", "skipped")
             else:
                 rc, out = sh(f"/venv/bin/python -m pytest tests -q -p no:cacheprovider -n 8 -x 2>&1 | tail -3", cwd=wt, env=env)
                 suite = out.strip().splitlines()[-1] if out.strip() else "?"
@@ -64,7 +67,7 @@ def main():
                             "lines": [l[:300] for l in out.splitlines() if l.startswith("src/")][:6]}
             sh(f"git -C {wt} checkout -- . && git -C {wt} clean -fdq")
             rc_demo_ok, out_ok = sh(f"/venv/bin/python {demo}", cwd=wt, env=env, timeout=300)
-            confirmed = rc_demo_bad != 0 and rc_demo_ok == 0 and ("passed" in suite and "failed" not in suite or args.skip_suite)
+            confirmed = rc_demo_bad != 0 and rc_demo_ok == 0 and ("passed" in suite and "failed" not in suite)
             meta.update({
                 "confirmed": confirmed,
                 "suite_with_change": suite,
